@@ -541,6 +541,14 @@ def match_known(kf, pid, v):
     return None
 
 
+def pkg_overlay(pkg_rel, harness_sub):
+    """all harness files of one package: harness/<sub>/<x>_test.go -> <pkg>/zz_verif_<x>_test.go"""
+    m = {}
+    for f in sorted(glob.glob(os.path.join(HARNESS, harness_sub, "*.go"))):
+        m[os.path.normpath(os.path.join(pkg_rel, "zz_verif_" + os.path.basename(f)))] = os.path.join(harness_sub, os.path.basename(f))
+    return m
+
+
 def sample_cases(cases, rng, n=3):
     if not cases:
         return []
